@@ -94,6 +94,23 @@ class ContinueParentStageHandler(StabilizeHandler[ContinueParentStage]):
 
         self.with_stage(message, on_stage)
 
+    def _record_parent_failed(self, stage: StageExecution) -> None:
+        """Record stage.failed for a parent this handler marks TERMINAL.
+
+        Called INSIDE the transaction that stores the parent: the CompleteStage
+        pushed next to it finds the stage already halted and records nothing,
+        so without this event a replay of the log keeps the parent RUNNING.
+        """
+        if not self.event_recorder:
+            return
+        self.set_event_context(stage.execution.id if stage.execution else "")
+        error = stage.context.get("exception", {}).get("details", {}).get("error", "Synthetic stage failed")
+        self.event_recorder.record_stage_failed(
+            stage,
+            error=str(error),
+            source_handler="ContinueParentStageHandler",
+        )
+
     def _handle_before_phase(
         self,
         stage: StageExecution,
@@ -133,6 +150,7 @@ class ContinueParentStageHandler(StabilizeHandler[ContinueParentStage]):
                     )
                 ],
                 handler_name="ContinueParentStage",
+                in_transaction=lambda: self._record_parent_failed(stage),
             )
             return
 
@@ -168,6 +186,7 @@ class ContinueParentStageHandler(StabilizeHandler[ContinueParentStage]):
                         )
                     ],
                     handler_name="ContinueParentStage",
+                    in_transaction=lambda: self._record_parent_failed(stage),
                 )
                 return
 
@@ -300,6 +319,7 @@ class ContinueParentStageHandler(StabilizeHandler[ContinueParentStage]):
                     )
                 ],
                 handler_name="ContinueParentStage",
+                in_transaction=lambda: self._record_parent_failed(stage),
             )
             return
 
@@ -335,6 +355,7 @@ class ContinueParentStageHandler(StabilizeHandler[ContinueParentStage]):
                         )
                     ],
                     handler_name="ContinueParentStage",
+                    in_transaction=lambda: self._record_parent_failed(stage),
                 )
                 return
 
